@@ -9,7 +9,9 @@ import os, subprocess, sys
 
 ROOT = os.path.dirname(os.path.dirname(os.path.abspath(__file__)))
 
-def kind(c): return c.req.split(' ', 1)[0]
+def kind(c):
+    k = c.req.split(' ', 1)[0]
+    return 'open' if k == 'openb' else k   # openb = the same opens of a segment whose file name is not valid UTF-8
 
 # ------------------------------------------------------------------------------------------- hooks
 
@@ -52,6 +54,8 @@ def proj_c16(c):
 
 def proj_c17(c):
     k = kind(c)
+    if k == 'session':       # both client libraries, every call of the session
+        return (c.impl, c.model)
     if k == 'open':          # the two client libraries (kind, errno, detail)
         return (parts(c.impl)[1:], parts(c.model)[1:])
     if k == 'seg':           # the image the daemon leaves behind
@@ -91,14 +95,14 @@ PROPS_HEADER = {
     level_text='C17.decode_encode (round trip for in-range fields), field_* (offset and width of each of the eleven fields of encodeSegmentP, any padding), total_size, layout_sound, status_codes, byte_order are about the model\'s encoder, which C16.repair_roundtrip ties to the bytes the daemon writes. doc_layout_agrees / doc_types_agree / doc_plan / doc_status_agrees / doc_endianness, rust_*_layout / rust_layout_is_model_layout / rust_magic_agrees / rust_status_agrees, c_enums_agree / c_err_kind_codes / c_status_codes / c_structs_agree / c_functions_agree / abi_expected are closed by decide against the generated facts. C17.magic_doc_agrees (separate module) compares the document\'s spelling of the magic number with the bytes written. holds_seg_of / model_holds_seg / model_holds_sandwich / model_holds_abi tie the oracles to the model.',
     level_note='Trusted: Lean kernel + standard axioms; the translator (tokenisation only, fails on anything it cannot parse); LP64 System V sizes/alignments in `AbiTy`; the C side is observed through one C program.',
     pre='c17',
-    gens=lambda seed, th: [['hdr-abi'], ['hdr-seg', seed, 60000 if th else 4000], ['hdr-sandwich', seed, 200000 if th else 12000], ['hdr-open', seed, 20000 if th else 2000]],
-    relevant=lambda c: kind(c) in ('seg', 'sandwich', 'cabi', 'open'),
+    gens=lambda seed, th: [['hdr-abi'], ['hdr-seg', seed, 60000 if th else 4000], ['hdr-sandwich', seed, 200000 if th else 12000], ['hdr-open', seed, 20000 if th else 2000], ['session', seed, 40000 if th else 1500]],
+    relevant=lambda c: kind(c) in ('seg', 'sandwich', 'cabi', 'open', 'session'),
     project=proj_c17,
     nontrivial=lambda c: (kind(c) == 'seg' and bool(c.tags & {'recreated', 'takenOver'}) and bool(c.tags & {'negField', 'extremeField', 'highBitU32', 'st1', 'st2'}))
                          or (kind(c) == 'sandwich' and bool(c.tags & {'growth', 'near5s', 'nearVoid', 'nearBlur', 'errMalformed', 'errCausality', 'panic'}))
                          or kind(c) == 'cabi'
                          or (kind(c) == 'open' and not ({'usable'} & c.tags)),
-    rule="seg: as C16 (the image after start-up + first publication is decoded through the document's diagram offsets and type annotations and must give the published record, version 1, an even non-zero generation, declared size >= 72 and = 72 = file size when re-created); C17magic: bytes 0..8 of the image against the document's magic literals. sandwich: the client generator's records x clock readings (threshold grid subset + seeded random incl. 4% out-of-range) written by the real ShmWriter, read by ClockBoundClient::now() under the harness's virtual clock and by clockbound_now() in the C process under its interposed clock_gettime; results must be identical incl. error kind and errno (a Rust panic = SIGABRT of the C process). open: error kind / errno / detail of both client libraries, and after a successful open+close eight more open/close cycles must not grow the process's mappings or descriptors (both libraries). cabi: one line. distinct = sha1 of request; non-trivial = seg with non-trivial field values, sandwich near a threshold / with drift growth / with an error outcome, cabi, open of an unusable path",
+    rule="seg: as C16 (the image after start-up + first publication is decoded through the document's diagram offsets and type annotations and must give the published record, version 1, an even non-zero generation, declared size >= 72 and = 72 = file size when re-created); C17magic: bytes 0..8 of the image against the document's magic literals. sandwich: the client generator's records x clock readings (threshold grid subset + seeded random incl. 4% out-of-range) written by the real ShmWriter, read by ClockBoundClient::now() under the harness's virtual clock and by clockbound_now() in the C process under its interposed clock_gettime; results must be identical incl. error kind and errno (a Rust panic = SIGABRT of the C process). open: error kind / errno / detail of both client libraries (also for a segment whose file name is not valid UTF-8: ShmReader::new and clockbound_open get the raw bytes, the Rust client a UTF-8 symbolic link), and after a successful open+close eight more open/close cycles must not grow the process's mappings or descriptors (both libraries). cabi: one line. distinct = sha1 of request; non-trivial = seg with non-trivial field values, sandwich near a threshold / with drift growth / with an error outcome, cabi, open of an unusable path",
     trusted_base=HEADER_TB + ["clock_gettime interposition in the C process (every answer checks that exactly one realtime and one monotonic read were intercepted)"],
     assumptions=["C17magic fails on the current docs/PROTOCOL.md (known defect D5: the byte string printed there is the big-endian image); it passes once the description gives the two native-endian 32-bit words 0x414D5A4E, 0x43420200 (and/or the little-endian bytes 4E 5A 4D 41 00 02 42 43)"],
  ),
